@@ -109,6 +109,9 @@ func GenEngineScript(r *Rng, o EngineGenOpts, hist map[string]int) []string {
 		c.fsize = 1 << 20
 	}
 	add("dir db")
+	if o.HostileCaller {
+		add("hostile 1")
+	}
 	add("open %s", c)
 	if steer {
 		// records that end within 8 bytes of a block boundary (the file offset is known: the
@@ -527,6 +530,8 @@ func init() {
 				o.BigVals = true
 			case "backupcycle":
 				o.BackupCycle = true
+			case "hostile":
+				o.HostileCaller = true
 			case "mergeheavy":
 				o.MergeHeavy = true
 				o.Merges = true
